@@ -101,7 +101,7 @@ def scn_apply(ctx):
 ASSUMPTIONS = ["X: 0-3 positional x 0-2 keyword argument futures, all completion orders of the first four inputs, failing input at any position, fn raising; S: fn + 2 positional + 1 keyword, two completer threads"]
 BOUNDS_TEXT = {"quick": "X: 13 contracts (90 s each); S: P<=1", "thorough": "X: 400 s; S: P<=2"}
 MUST_REACH = {"*": ["args-checked", "failure-checked"]}
-BUDGET = {"quick": 120.0, "thorough": 900.0}
+BUDGET = {"quick": 120.0, "thorough": 600.0}
 
 
 def plan(tier, seed):
